@@ -390,6 +390,13 @@ func buildIntrinsics() map[string]Intrinsic {
 	}
 	m["(*sync.Pool).Get"] = func(g *Goroutine, c *frame, fn *ssa.Function, a []Value) (Value, bool) {
 		// Pool{noCopy, local, localSize, victim, victimSize, New}
+		// An object that was Put is handed out again (most recent first), as the
+		// runtime does on one P: aliasing through recycled objects is visible.
+		if st, ok := g.p.side[a[0].ptr()].(*[]Value); ok && len(*st) > 0 {
+			v := (*st)[len(*st)-1]
+			*st = (*st)[:len(*st)-1]
+			return v, true
+		}
 		pool := a[0].ptr().agg()
 		newf := pool[len(pool)-1]
 		if newf.R == nil {
@@ -397,7 +404,18 @@ func buildIntrinsics() map[string]Intrinsic {
 		}
 		return g.call(c, newf, nil), true
 	}
-	m["(*sync.Pool).Put"] = noop
+	m["(*sync.Pool).Put"] = func(g *Goroutine, c *frame, fn *ssa.Function, a []Value) (Value, bool) {
+		if a[1].K == KIface && a[1].R == nil {
+			return Value{}, true
+		}
+		st, ok := g.p.side[a[0].ptr()].(*[]Value)
+		if !ok {
+			st = new([]Value)
+			g.p.side[a[0].ptr()] = st
+		}
+		*st = append(*st, a[1])
+		return Value{}, true
+	}
 
 	// ---- sync/atomic
 	atomicLoad := func(g *Goroutine, c *frame, fn *ssa.Function, a []Value) (Value, bool) {
